@@ -23,7 +23,8 @@ REQUIRED_PROBES = ["write_pixels"]
 REQUIRED_FEATURES = ["form:df_sorted", "form:df_shuffled", "form:dict", "form:chunks_df", "form:chunks_dict",
                      "form:arrayloader", "chunks:leading-empty", "chunks:trailing-empty", "chunks:all-empty",
                      "mode:square", "mode:symm", "extra-columns:2", "ensure_sorted:shuffled-chunk",
-                     "ensure_sorted:rows-ordered-columns-shuffled", "pixels:stored-zero-values"]
+                     "ensure_sorted:rows-ordered-columns-shuffled", "pixels:stored-zero-values",
+                     "ensure_sorted:with-all-checks-off"]
 
 FORMS = ["df_sorted", "df_shuffled", "dict", "chunks_df", "chunks_dict", "arrayloader", "chunks_df", "chunks_dict"]
 H5OPTS = [None, {"compression": "lzf"}, {"compression": "gzip", "compression_opts": 1},
@@ -179,6 +180,10 @@ def one_case(ctx, cid, rng, idx):
                 # ensure_sorted=True: rows inside a chunk may come in any order (chunks still partition the
                 # sorted table): fully shuffled, or rows in order but columns shuffled within each row
                 kw["ensure_sorted"] = True
+                if rng.random() < 0.4:
+                    # the input is known to be valid: every per-chunk check switched off, only the sort requested
+                    kw.update(boundscheck=False, dupcheck=False, triucheck=False)
+                    c.feature("ensure_sorted:with-all-checks-off")
                 newc = []
                 for ch in chunks:
                     if es == 1:
